@@ -526,7 +526,10 @@ func Main(t *testing.T, cfg Config) {
 
 	over := func() bool {
 		if hist != nil {
-			return res.Runs >= hist.Ordinal
+			// no budget: the sequence is re-executed up to its first violation (at the recorded ordinal
+			// if the run sequence alone determines the outcome; later runs are still looked at for
+			// the replay-by-signature case, see bin/check)
+			return false
 		}
 		if budget > 0 && time.Since(wall) > budget {
 			res.Budgeted = true
